@@ -738,4 +738,139 @@ theorem projKey_all_val {cs : List Cmd} (k : Option Nat) (h : ∀ c ∈ cs, cmdI
   | val b => rfl
   | mp op => have := h _ hc; simp [cmdIsMap] at this
 
+
+/-! ### The sync frame owed to a consumer that registered with SYNC -/
+
+/-- A sync frame is owed only while the task is `Writing` with `NEEDS_SYNC` set (or has stopped), and only to
+consumers that are still registered. -/
+def OInv (s : WSt) : Prop :=
+  (s.owed ≠ [] → (s.mode = .writing ∧ s.needsSync = true) ∨ s.mode = .stopped) ∧ (∀ i ∈ s.owed, i ∈ s.producers)
+
+theorem encodeAll_cmd_owed (s : WSt) (cs : List Cmd) :
+    (encodeAll s (cs.map Frame.cmd)).owed = s.owed ∧ (encodeAll s (cs.map Frame.cmd)).producers = s.producers ∧
+    (encodeAll s (cs.map Frame.cmd)).needsSync = s.needsSync := by
+  induction cs generalizing s with
+  | nil => exact ⟨rfl, rfl, rfl⟩
+  | cons c cs ih => simp only [List.map_cons, encodeAll]; have := ih (encode s (.cmd c)); simpa [encode] using this
+
+theorem drainBp_owed (s : WSt) :
+    (drainBp s).owed = s.owed ∧ (drainBp s).producers = s.producers ∧ (drainBp s).needsSync = s.needsSync := by
+  unfold drainBp
+  split
+  · exact ⟨rfl, rfl, rfl⟩
+  · exact encodeAll_cmd_owed s (pendingCmds s)
+
+theorem encodeAll_regQ (s : WSt) (fs : List Frame) : (encodeAll s fs).regQ = s.regQ := by
+  induction fs generalizing s with
+  | nil => rfl
+  | cons f fs ih => simp only [encodeAll]; rw [ih]; rfl
+
+theorem drainBp_regQ (s : WSt) : (drainBp s).regQ = s.regQ := by
+  unfold drainBp
+  split
+  · rfl
+  · exact encodeAll_regQ s _
+
+theorem oinv_init (cap hdr : Nat) : OInv (winit cap hdr) := by
+  constructor
+  · intro h; simp [winit, encode] at h
+  · intro i hi; simp [winit, encode] at hi
+
+theorem oinv_wnorm {s : WSt} (h : OInv s) : OInv (wnorm s) := by
+  unfold wnorm
+  split
+  · exact h
+  · split
+    · exact h
+    · exact h
+
+theorem oinv_wmicro {s s' : WSt} (h : OInv s) (hm : wmicro s = some s') : OInv s' := by
+  obtain ⟨h1, h2⟩ := h
+  have hd := drainBp_owed s
+  unfold wmicro at hm
+  repeat' (split at hm)
+  all_goals first
+    | (cases hm; done)
+    | (cases hm
+       constructor
+       · simp_all [encode, stopW]
+       · intro i hi
+         simp_all [encode, stopW]
+         try (rcases hi with hi | hi <;> simp_all))
+
+
+theorem oinv_wsettle (n : Nat) : ∀ {s : WSt}, OInv s → OInv (wsettle n s) := by
+  induction n with
+  | zero => intro s h; exact oinv_wnorm h
+  | succ n ih =>
+    intro s h
+    simp only [wsettle]
+    split
+    · rename_i s' hs'; exact ih (oinv_wmicro (oinv_wnorm h) hs')
+    · exact oinv_wnorm h
+
+theorem pushOp_owed (s : WSt) (c : Cmd) :
+    (pushOp s c).owed = s.owed ∧ (pushOp s c).producers = s.producers ∧ (pushOp s c).needsSync = s.needsSync ∧
+    (pushOp s c).mode = s.mode := by
+  cases c <;> simp [pushOp]
+
+theorem oinv_winput {s : WSt} (e : WEv) (h : OInv s) : OInv (winput s e).1 := by
+  obtain ⟨h1, h2⟩ := h
+  cases e with
+  | register id sync => exact ⟨h1, h2⟩
+  | drain k => exact ⟨h1, h2⟩
+  | sockClose => exact ⟨h1, h2⟩
+  | closeReq => exact ⟨h1, h2⟩
+  | command id c =>
+    simp only [winput]
+    split
+    · unfold onCommand
+      have hp := pushOp_owed { s with issued := s.issued ++ [c] } c
+      split
+      · split
+        · constructor
+          · simp_all [encode]
+          · intro i hi; simp_all [encode]
+        · split
+          · constructor
+            · simp_all [stopW]
+            · intro i hi; simp_all [stopW]
+          · constructor
+            · simp_all
+            · intro i hi; simp_all
+      · obtain ⟨p1, p2, p3, p4⟩ := hp
+        constructor
+        · intro hne; rw [p1] at hne; rw [p4, p3]; exact h1 hne
+        · intro i hi; rw [p1] at hi; rw [p2]; exact h2 i hi
+      · exact ⟨h1, h2⟩
+    · exact ⟨h1, h2⟩
+  | producerClosed id =>
+    simp only [winput]
+    split
+    · split
+      · unfold onProducersEmpty
+        split
+        · split
+          · exact ⟨by simp, by simp⟩
+          · split
+            · constructor
+              · simp_all [stopW]
+              · intro i hi; simp_all [stopW]
+            · exact ⟨by simp, by simp⟩
+        · exact ⟨by simp, by simp⟩
+        · exact ⟨by simp, by simp⟩
+      · constructor
+        · intro hne
+          apply h1
+          intro h0; rw [h0] at hne; simp at hne
+        · intro i hi
+          simp only [List.mem_filter, bne_iff_ne, ne_eq] at hi
+          exact (List.mem_erase_of_ne hi.2).mpr (h2 i hi.1)
+    · exact ⟨h1, h2⟩
+
+theorem oinv_wrun (evs : List WEv) : ∀ {s : WSt}, OInv s → OInv (wrun s evs) := by
+  induction evs with
+  | nil => intro s h; exact h
+  | cons e es ih => intro s h; exact ih (oinv_wsettle _ (oinv_winput e h))
+
 end SwimVerif.DL
